@@ -46,7 +46,7 @@ def sweep(rng, n):
 oracle_search = propgen.budgeted([sweep])
 
 
-oracle_at = propgen.definitional_oracle_at(['multipitch_metrics', 'multipitch_resample'], 'error accounting / nearest-frame resampling as specified')
+oracle_at = propgen.chained(propgen.point_oracle(ID), propgen.definitional_oracle_at(['multipitch_metrics', 'multipitch_resample'], 'error accounting / nearest-frame resampling as specified'))
 
 
 def diagnose(b):
